@@ -174,12 +174,21 @@ HFUN_FLAGS = ["-std=c++17", "-O1", "-g", "-fsanitize=address,undefined", "-fno-s
               "-DNDEBUG", "-I" + os.path.join(REPO, "include"), "-I" + os.path.join(VERIF, "harness")]
 
 
+REPO_SRC = ["common", "fs", "io", "net", "rpc", "thread", "photon.cpp", "photon.h", "CMakeLists.txt", "CMake"]
+
+
+def repo_fingerprint():
+    """content hash of every source file of /repo's working tree (a harness is recompiled whenever it changes)"""
+    return tree_fingerprint(REPO_SRC)
+
+
 def compile_harness(name, sources, extra=(), flags=None, deps=()):
     """Compile a harness against /repo's current working tree. Returns (binary|None, log).
-    Always recompiles when any dependency (by content) changed; binaries live under SCRATCH."""
+    Recompiles whenever any source file of /repo, the harness, or the flags changed; binaries live under SCRATCH."""
     flags = list(HFUN_FLAGS if flags is None else flags)
     srcs = [s if os.path.isabs(s) else os.path.join(VERIF, "harness", s) for s in sources]
-    key = hashlib.sha256((" ".join(flags + list(extra)) + tree_fingerprint(srcs + list(deps))).encode()).hexdigest()[:16]
+    hdrs = [os.path.join(VERIF, "harness", f) for f in sorted(os.listdir(os.path.join(VERIF, "harness"))) if f.endswith(".h")]
+    key = hashlib.sha256((" ".join(flags + list(extra)) + tree_fingerprint(srcs + hdrs) + repo_fingerprint()).encode()).hexdigest()[:16]
     bdir = os.path.join(SCRATCH, "bin")
     os.makedirs(bdir, exist_ok=True)
     out = os.path.join(bdir, "%s-%s" % (name, key))
@@ -311,3 +320,30 @@ def known_findings(prop):
 
 def rng(seed, salt=""):
     return random.Random("%s/%s" % (seed, salt))
+
+
+# ------------------------------------------------------------------ libphoton from the working tree
+
+PHOTON_BUILD = os.path.join(SCRATCH, "build")
+
+
+def build_photon():
+    """Configure (once) and (re)build libphoton.so from /repo's current working tree with -DPHOTON_VERIF.
+    ninja rebuilds exactly the objects whose sources changed. Returns (libdir|None, log)."""
+    with Lock("photon-build"):
+        os.makedirs(PHOTON_BUILD, exist_ok=True)
+        if not os.path.exists(os.path.join(PHOTON_BUILD, "build.ninja")):
+            rc, out = sh(["cmake", "-G", "Ninja", "-S", REPO, "-B", PHOTON_BUILD, "-DCMAKE_BUILD_TYPE=RelWithDebInfo",
+                          "-DPHOTON_BUILD_TESTING=OFF", "-DCMAKE_CXX_FLAGS=-Wno-error -DPHOTON_VERIF"], timeout=1800)
+            if rc != 0:
+                shutil.rmtree(PHOTON_BUILD, ignore_errors=True)
+                return None, out
+        rc, out = sh(["ninja", "-C", PHOTON_BUILD, "photon_shared"], timeout=3600)
+        lib = os.path.join(PHOTON_BUILD, "output")
+        if rc != 0 or not os.path.exists(os.path.join(lib, "libphoton.so")):
+            return None, out
+        return lib, out
+
+
+def photon_link_flags(libdir):
+    return ["-L" + libdir, "-lphoton", "-Wl,-rpath," + libdir, "-lpthread", "-ldl"]
